@@ -1236,8 +1236,12 @@ class Builtins:
         v = args[0]
         if isinstance(v, ListV) and v.absorbed is not None:
             v = v.absorbed
+        if isinstance(v, DictV):
+            I.raise_exc("TypeError", [Str.lit("'dict' object is not an iterator")], node, fr)
         if isinstance(v, (ListV, TupleV)):
             if v.items:
+                if getattr(v, "is_iter", False):
+                    return v.items.pop(0)
                 return v.items[0]
             if len(args) > 1:
                 return args[1]
@@ -1251,7 +1255,15 @@ class Builtins:
         raise I.unsupported(f"next() of {v!r}", node, fr)
 
     def x_iter(self, args, kwargs, node, fr) -> Value:
-        return args[0]
+        v = args[0]
+        if isinstance(v, ListV) and v.absorbed is None or isinstance(v, (TupleV, SetV)):
+            it = ListV(list(v.items))
+        elif isinstance(v, DictV):
+            it = ListV([k for k, _ in v.pairs])
+        else:
+            return v
+        it.is_iter = True      # type: ignore[attr-defined]  (an iterator: next() consumes)
+        return it
 
     def x_print(self, args, kwargs, node, fr) -> Value:
         self.I.run.event("print", args=args, node=node)
